@@ -535,7 +535,7 @@ func (w *world) checkServer(step string, full bool) {
 		for _, e := range group {
 			it, ok := byJTI[e.jti]
 			if !ok {
-				if e.current {
+				if e.current && !e.maybeExpired() {
 					w.violation("C16/server/entry-missing", fmt.Sprintf("accepted presentation %s is not on the list (%s)", short(e.jti), step), nil)
 				}
 				continue
@@ -599,7 +599,7 @@ func (w *world) checkServer(step string, full bool) {
 		}
 	}
 	for _, e := range m.cur {
-		if _, ok := byJTI[e.jti]; !ok && !e.aged && e.ts != 0 {
+		if _, ok := byJTI[e.jti]; !ok && !e.aged && e.ts != 0 && !e.maybeExpired() {
 			w.violation("C16/server/entry-missing", fmt.Sprintf("entry %s (ts %d) of the model is not on the list (%s)", short(e.jti), e.ts, step), nil)
 		}
 	}
@@ -616,7 +616,7 @@ func (w *world) checkServer(step string, full bool) {
 			}
 		}
 		for _, e := range m.cur {
-			if e.ts > after && !e.aged && !got[e.jti] {
+			if e.ts > after && !e.aged && !got[e.jti] && !e.maybeExpired() {
 				w.violation("C16/server/get-after-timestamp-misses-entry", fmt.Sprintf("GET after %d lacks the entry at %d (%s)", after, e.ts, step), nil)
 			}
 		}
@@ -651,12 +651,17 @@ func (w *world) compareSearch(n *node.Node, who, query string, want []string, st
 		w.violation(w.classifyExtra(who, f.id), fmt.Sprintf("%s search returns %s which is not live in the reference list (%s)", who, short(f.id), step), map[string]any{"query": query})
 	}
 	for j := range wantSet {
-		ok = false
 		key := "C16/" + who + "/search-misses-entry"
 		if who == "client" {
 			key = "C16/convergence/entry-missing" + w.ctxSuffix()
 		}
 		e := w.m.byJTI[j]
+		if e.maybeExpired() {
+			// short-lived for real and at (or past) its last second: the run has not yet waited for its expiry to be certain
+			w.r.Unspecified("short-lived-entry-around-its-expiry")
+			continue
+		}
+		ok = false
 		w.violation(key, fmt.Sprintf("%s search lacks live entry %s (ts %d) (%s)", who, short(j), e.ts, step), map[string]any{"query": query})
 	}
 	return ok
@@ -1510,10 +1515,10 @@ func (w *world) run(from, to int) {
 		case (h+w.id)%5 == 0:
 			w.unverifiedMix()
 			kinds = append(kinds, "unverified-mix")
-		case (h+w.id)%5 == 1:
+		case (h+w.id)%5 == 1 && (h/5)%2 == 0:
 			w.realExpiry()
 			kinds = append(kinds, "real-expiry")
-		case (h+w.id)%5 == 3:
+		case (h+w.id)%5 == 3 && (h/5)%2 == 0:
 			w.retractionSweep(allDefects)
 			kinds = append(kinds, "retraction-sweep")
 		case (h+w.id)%5 == 2:
